@@ -24,7 +24,7 @@ KMP_IF = mut("fallback-if-instead-of-while", "string.c", "while (j && pat[j] != 
 unit("str.kmp.init.table",
      "kmp_init: raises for the empty pattern; otherwise records text/pattern, starts at 0 and lookup[k] is the longest proper border of pat[0..k] (hence 0 <= lookup[k] <= k) for every k; every read inside the pattern, every write inside the table",
      "h_kmp_init_table", cls="bounded", bound="every pattern of at most 6 bytes (all byte contents)",
-     mode="plain", src=["string.c"], harness=["str_kmp.c"], defines=["-DKMP_MAXPAT=6"], unwind=8,
+     mode="plain", src=["string.c"], harness=["str_kmp.c"], defines=["-DKMP_MAXPAT=6"], unwind=8, unwindset={"calloc.0": 26},
      functions=["kmp_init"],
      assumes=["calloc: CBMC library model (zero-filled fresh block or NULL)"],
      mutants=[KMP_IF,
